@@ -51,7 +51,10 @@ replayed through `FanG.step` -- outside relay mode through `FanX.step`, which wr
 compared with `FanX.increaseNofile`) included --, incl. the pdcp worker `_rcp_thread`); fairness of the real scheduler;
 workers whose command never ends (C07: `immortal_never_returns`) and cancellation (^C^Z, C20) are outside these
 models; that `-k` really reaches the running commands when a create fails (`termSent` is the call of `_fwd_signal`,
-monitors only); fanout 0 (the dispatcher then waits forever: C18).  `FanPoll` (the loop as code) is not under a trace
+monitors only); fanout 0 (the dispatcher then waits forever: C18).  WHICH ADDRESS a target's command is sent to is not in the LTS
+(a target is its index): monitor only -- pinned runs with a transport that wants resolved addresses (harness key
+`resolve`: the harness's resolver has ONE static result buffer like libc's, the instant after a mutex is dropped is a
+scheduling point, the stub checks the address it is handed; 120 schedules, fanout 2 and 3).  `FanPoll` (the loop as code) is not under a trace
 acceptor of its own: its worker component IS C05's `pollStep` (differential execution in checks/c05.py), its protocol
 component IS `FanG.step`; the acceptor's relay mode keeps running the per-stream composition `FanRelay`.  The composed LTS of `EndToEnd` is tied to
 dsh.c the same way: runs whose reads / closes are logged go through `FanRelay.step` (relay mode of `pdshmodel fan`:
